@@ -9,13 +9,13 @@ import (
 // keyPool builds the structured key pool of one run. The trie indexes keys by their nibbles in REVERSE
 // order, so shared byte suffixes become shared nibble prefixes (extension nodes), and a key that is a byte
 // suffix of another ends at a branch's terminator child.
-func keyPool(r *simkit.Rand) [][]byte {
+func keyPool(r *simkit.Rand, maxKeys int) [][]byte {
 	alpha := [][]byte{{0x00, 0x01, 0x10, 0x11}, {0x61, 0x62, 0x63}, {0xff, 0xf0, 0x0f, 0xab}, {0x12, 0x21, 0x22}}[r.Intn(4)]
 	pick := func() byte { return alpha[r.Intn(len(alpha))] }
 	seen := map[string]bool{}
 	var pool [][]byte
 	add := func(k []byte) {
-		if !seen[string(k)] && len(pool) < 40 {
+		if !seen[string(k)] && len(pool) < maxKeys {
 			seen[string(k)] = true
 			pool = append(pool, append([]byte(nil), k...))
 		}
@@ -26,7 +26,7 @@ func keyPool(r *simkit.Rand) [][]byte {
 	for i, n := 0, r.Range(1, 4); i < n; i++ {
 		add([]byte{pick()})
 	}
-	for s, ns := 0, r.Range(1, 3); s < ns; s++ {
+	for s, ns := 0, r.Range(1, 3)+maxKeys/45*2; s < ns; s++ {
 		var suffix []byte
 		sl := r.Range(1, 5)
 		if r.Chance(0.2) {
@@ -98,7 +98,12 @@ func generate(r *simkit.Rand, prop, tier string) *simkit.Plan {
 	p.Knobs["max_level"] = int64(r.Range(1, 8))
 	p.Knobs["cache"] = int64([]int{1, 2, 4, 8, 64}[r.Intn(5)])
 	p.Knobs["hash_each"] = int64(r.Intn(2))
-	pool := keyPool(r)
+	deep := tier == "thorough" && r.Chance(0.3) // thorough tier: a third of the runs are long, over a larger key pool
+	maxKeys := 40
+	if deep {
+		maxKeys = 90
+	}
+	pool := keyPool(r, maxKeys)
 	// a part of the pool is never inserted (absent keys for lookups and proofs)
 	nIns := len(pool) - r.Range(0, len(pool)/3)
 	if nIns < 2 {
@@ -130,6 +135,9 @@ func generate(r *simkit.Rand, prop, tier string) *simkit.Plan {
 		w[4] += 2
 	}
 	n := r.Range(10, 150)
+	if deep {
+		n = r.Range(150, 500)
+	}
 	proofs := 0
 	for i := 0; i < n; i++ {
 		op := ops[r.Weighted(w)]
